@@ -396,12 +396,12 @@ var _ = carv2.PragmaSize
 
 func init() {
 	Register(&mon.Check{
-		ID:    "C05",
-		Level: "exploration",
-		Rule: "cases = seeded writing sessions (0-9 honest blocks incl. duplicates/identity/boundary sizes; sessions without puts) x option matrix (data padding {0,1,7,1413}, index padding {0,1,1024}, both codecs, StoreIdentityCIDs, WriteAsCarV1, whole-CID, allow-dup) x {blockstore Put, blockstore PutMany, storage.NewWritable, storage.NewReadableWritable, deferred writer}; plus archives produced by the built car binary (create, get-dag, filter). Each finalized file is parsed by the reference: pragma, header arithmetic, zero padding, payload = header ‖ stored sections, index = exactly those sections in canonical order, characteristics bits, nothing after the index; then Reader.Inspect(true) and lib.VerifyCar (when all roots are stored)",
+		ID:          "C05",
+		Level:       "exploration",
+		Rule:        "cases = seeded writing sessions (0-9 honest blocks incl. duplicates/identity/boundary sizes; sessions without puts) x option matrix (data padding {0,1,7,1413}, index padding {0,1,1024}, both codecs, StoreIdentityCIDs, WriteAsCarV1, whole-CID, allow-dup) x {blockstore Put, blockstore PutMany, storage.NewWritable, storage.NewReadableWritable, deferred writer}; plus archives produced by the built car binary (create, get-dag, filter). Each finalized file is parsed by the reference: pragma, header arithmetic, zero padding, payload = header ‖ stored sections, index = exactly those sections in canonical order, characteristics bits, nothing after the index; then Reader.Inspect(true) and lib.VerifyCar (when all roots are stored)",
 		Assumptions: []string{"refcar parses containers and indexes; lab.Model decides which puts are stored"},
-		Gen:   genC05,
-		Run:   runC05,
+		Gen:         genC05,
+		Run:         runC05,
 		MinCover: map[string]int{"api:blockstore": 20, "api:storage-writable": 20, "api:storage-rw": 20, "api:deferred": 20, "api:cli": 10, "cli:get-dag": 10, "cli:filter": 10,
 			"v2-files-checked": 200, "verifycar-run": 50, "sessions-without-stored-blocks": 5},
 	})
